@@ -1,21 +1,28 @@
 (* C17 — copyright lookup: the last matching Files paragraph wins; DEP-5 globs and licences.
    Statements only; proofs in proofs/GlobP.v, proofs/CopyrightP.v, proofs/CopyrightRefuteP.v.
 
-   Quantifiers: every pattern g : str with valid escapes, every path p : str (any characters,
-   LF and '/' included); every document d (any list of paragraphs, each any list of
-   (field, value) pairs: any number and order of Files paragraphs, any number of patterns per
-   paragraph separated by any Unicode whitespace — i.e. on one or several lines —, overlapping
-   patterns, inline and stand-alone licences, duplicated fields, unknown paragraphs); every
-   text s.  No bound anywhere; nothing is proved by evaluation except the concrete witnesses.
+   Quantifiers: every pattern g : str, every path p : str (any characters, LF and '/' included);
+   every document d (any list of paragraphs, each any list of (field, value) pairs: any number
+   and order of Files paragraphs, any number of patterns per paragraph separated by any Unicode
+   whitespace — i.e. on one or several lines —, overlapping patterns, patterns with invalid
+   escapes, inline and stand-alone licences, duplicated fields, unknown paragraphs) that spells
+   the field names Files / License / Copyright / Format in exactly this case ([exact_case], the
+   complement of the recorded finding field-name-case); every text s.  No bound anywhere;
+   nothing is proved by evaluation except the concrete witnesses.
 
-   The vocabulary (files_paragraphs, para_matches, is_last_such, licence_answer, wf_doc,
-   found_rel, the five clauses and C17_full) is defined in model/CopyrightSpec.v; glob_matches
-   (the declarative DEP-5 matching relation) in model/Glob.v.
+   The vocabulary (sget, files_paragraphs, para_matches, is_last_such, licence_answer, wf_doc,
+   found_rel, exact_case, the clauses and C17_full) is defined in model/CopyrightSpec.v;
+   glob_matches (the declarative DEP-5 matching relation) in model/Glob.v.  The specification
+   looks fields up modulo case (Policy 5.1), the code exactly: C17_iter is a theorem with the
+   hypothesis exact_case, and C17_field_name_case_witness shows the hypothesis is necessary.
 
-   The code as shipped violates four clauses (reproduced on the real code).  [fixed] is the
-   code with the four one-line patches of proposed_fixes/C17-*.patch; the positive theorems
-   are about [fixed], the `_refuted` theorems about [shipped] and about each variant that lacks
-   exactly one of the fixes (so every fix is shown necessary). *)
+   Variants of the code (model/Copyright.v): [shipped] (before any fix), [committed] (the four
+   fixes that are in /repo: aa779ad 03f3b49 9fb8927 c9dae02), [fixed] (= committed + the two
+   proposed patches C17-invalid-glob-escape and C17-non-utf8-path).  The positive theorems are
+   about [fixed]; what holds of [committed] carries the extra hypothesis doc_valid
+   (C17_lookup_committed) and C17_invalid_escape_witness shows that hypothesis is necessary
+   there; the `_refuted` theorems are about [shipped], [committed] and each variant that lacks
+   exactly one fix (so every fix is shown necessary). *)
 From V.model Require Import Base Deb822Lex Deb822Parse Glob Copyright CopyrightSpec.
 From V.proofs Require Import GlobP CopyrightP CopyrightRefuteP.
 
@@ -30,6 +37,11 @@ Theorem C17_shipped_refuted : ~ C17_full shipped.
 Proof. exact C17_shipped_refuted_all. Qed.
 Check C17_shipped_refuted : ~ C17_full shipped.
 Print Assumptions C17_shipped_refuted.
+
+Theorem C17_committed_refuted : ~ C17_full committed.
+Proof. exact C17_committed_refuted_all. Qed.
+Check C17_committed_refuted : ~ C17_full committed.
+Print Assumptions C17_committed_refuted.
 
 (* ------------------------------------------------------------------ clause 1: globs *)
 (* glob_to_regex succeeds on every pattern with valid escapes, the regex it returns accepts
@@ -53,6 +65,13 @@ Proof. exact glob_panics_iff. Qed.
 Check C17_glob_panics_iff : forall g,
   (exists k, glob_to_regex g = Panic k) <-> valid_escapes g = false.
 Print Assumptions C17_glob_panics_iff.
+
+(* glob_matches() of the patched code, on EVERY pattern: true exactly when the DEP-5 relation
+   holds — a pattern with an invalid escape matches nothing, it does not panic *)
+Theorem C17_glob_lenient : forall g p, glob_is_match true g p = true <-> glob_matches g p.
+Proof. exact glob_is_match_iff. Qed.
+Check C17_glob_lenient : forall g p, glob_is_match true g p = true <-> glob_matches g p.
+Print Assumptions C17_glob_lenient.
 
 (* the shipped regex (no (?s)) is right on paths that contain no newline ... *)
 Theorem C17_glob_shipped_partial : forall g p, valid_escapes g = true -> ~ In 10%N p ->
@@ -91,18 +110,19 @@ Check C17_patterns_whitespace :
 Print Assumptions C17_patterns_whitespace.
 
 (* ------------------------------------------------------------------ clause 2: lookups *)
-(* lossless reader: find_files returns the last Files paragraph (in file order) one of whose
-   patterns matches; find_license_for_file returns its own licence when that has text, else
-   the first stand-alone paragraph of that name, else nothing.  Never an error, panic or
-   fuel exhaustion on a document whose patterns have valid escapes. *)
-Theorem C17_lookup : forall d path, doc_valid d ->
+(* lossless reader, EVERY document outside field-name-case (patterns with invalid escapes
+   included: such a pattern matches nothing) and every path: find_files returns the last Files
+   paragraph (in file order) one of whose patterns matches; find_license_for_file returns its
+   own licence when that has text, else the first stand-alone paragraph of that name, else
+   nothing.  Never an error, panic or fuel exhaustion. *)
+Theorem C17_lookup : forall d path, exact_case d ->
   exists r ans,
     ll_find_files fixed d path = Ok r /\
     is_last_such (fun p => para_matches p path) (files_paragraphs d) r /\
     ll_find_license_for_file fixed d path = Ok ans /\
     licence_answer d r ans.
-Proof. exact ll_license_rule. Qed.
-Check C17_lookup : forall d path, doc_valid d ->
+Proof. exact (lookup_clause_lenient fixed good_fixed eq_refl). Qed.
+Check C17_lookup : forall d path, exact_case d ->
   exists r ans,
     ll_find_files fixed d path = Ok r /\
     is_last_such (fun p => para_matches p path) (files_paragraphs d) r /\
@@ -110,34 +130,108 @@ Check C17_lookup : forall d path, doc_valid d ->
     licence_answer d r ans.
 Print Assumptions C17_lookup.
 
-(* find_license_by_name: the first stand-alone licence paragraph with that name (any document) *)
-Theorem C17_find_license_by_name : forall d n,
+(* the code as committed (without C17-invalid-glob-escape): the same for documents all of
+   whose patterns have valid escapes ... *)
+Theorem C17_lookup_committed : forall d path, exact_case d -> doc_valid d ->
+  exists r ans,
+    ll_find_files committed d path = Ok r /\
+    is_last_such (fun p => para_matches p path) (files_paragraphs d) r /\
+    ll_find_license_for_file committed d path = Ok ans /\
+    licence_answer d r ans.
+Proof. exact (lookup_clause_valid_good committed good_committed). Qed.
+Check C17_lookup_committed : forall d path, exact_case d -> doc_valid d ->
+  exists r ans,
+    ll_find_files committed d path = Ok r /\
+    is_last_such (fun p => para_matches p path) (files_paragraphs d) r /\
+    ll_find_license_for_file committed d path = Ok ans /\
+    licence_answer d r ans.
+Print Assumptions C17_lookup_committed.
+
+(* ... and that hypothesis is necessary there: "Files: zzz\" in a second paragraph makes both
+   readers panic for a path that "Files: *" in the first paragraph matches; with the fix the
+   first paragraph answers.  Hence the clause fails for [committed] and for the variant that
+   lacks only this fix. *)
+Theorem C17_invalid_escape_witness :
+  exact_case Wit.d_bad /\ ~ doc_valid Wit.d_bad /\
+  ll_find_files committed Wit.d_bad Wit.p_f = Panic 2%N /\
+  ll_find_license_for_file committed Wit.d_bad Wit.p_f = Panic 2%N /\
+  (exists c, ly_of_doc committed Wit.d_bad = Ok c /\ ly_find_files committed c Wit.p_f = Panic 2%N /\
+             ly_find_license_for_file committed c Wit.p_f = Panic 2%N) /\
+  (exists p, ll_find_files fixed Wit.d_bad Wit.p_f = Ok (Some (0, p))) /\
+  ll_find_license_for_file fixed Wit.d_bad Wit.p_f = Ok (Some (LNamed [77; 73; 84]%N [116; 101; 120; 116]%N)).
+Proof. exact invalid_escape_witness. Qed.
+Check C17_invalid_escape_witness :
+  exact_case Wit.d_bad /\ ~ doc_valid Wit.d_bad /\
+  ll_find_files committed Wit.d_bad Wit.p_f = Panic 2%N /\
+  ll_find_license_for_file committed Wit.d_bad Wit.p_f = Panic 2%N /\
+  (exists c, ly_of_doc committed Wit.d_bad = Ok c /\ ly_find_files committed c Wit.p_f = Panic 2%N /\
+             ly_find_license_for_file committed c Wit.p_f = Panic 2%N) /\
+  (exists p, ll_find_files fixed Wit.d_bad Wit.p_f = Ok (Some (0, p))) /\
+  ll_find_license_for_file fixed Wit.d_bad Wit.p_f = Ok (Some (LNamed [77; 73; 84]%N [116; 101; 120; 116]%N)).
+Print Assumptions C17_invalid_escape_witness.
+
+Theorem C17_invalid_escape_refuted : ~ lookup_clause committed /\ ~ lookup_clause no_lenient.
+Proof. exact lookup_clause_committed_refuted. Qed.
+Check C17_invalid_escape_refuted :
+  ~ lookup_clause committed /\ ~ lookup_clause (mk_variant true true true true false true).
+Print Assumptions C17_invalid_escape_refuted.
+
+(* find_license_by_name: the first stand-alone licence paragraph with that name *)
+Theorem C17_find_license_by_name : forall d n, exact_case d ->
   exists q, is_first_such (named n) (licence_paragraphs d) q /\
     ll_find_license_by_name fixed d n =
       Ok (match q with Some q' => para_licence q' | None => None end).
-Proof. exact ll_find_license_by_name_first. Qed.
-Check C17_find_license_by_name : forall d n,
+Proof. intros d n H. exact (find_license_by_name_spec fixed d n good_fixed H). Qed.
+Check C17_find_license_by_name : forall d n, exact_case d ->
   exists q, is_first_such (named n) (licence_paragraphs d) q /\
     ll_find_license_by_name fixed d n =
       Ok (match q with Some q' => para_licence q' | None => None end).
 Print Assumptions C17_find_license_by_name.
 
-(* iter_files / iter_licenses are the Files / stand-alone licence paragraphs of the document *)
-Theorem C17_iter : forall d,
+(* iter_files / iter_licenses are the Files / stand-alone licence paragraphs of the document —
+   the specification's, which looks field names up modulo case; the code looks them up exactly,
+   so this needs (and C17_field_name_case_witness shows it needs) exact_case *)
+Theorem C17_iter : forall d, exact_case d ->
   ll_iter_files fixed d = files_paragraphs d /\ ll_iter_licenses fixed d = licence_paragraphs d.
-Proof. intro d. split; reflexivity. Qed.
-Check C17_iter : forall d,
+Proof. intros d H. exact (iter_spec fixed d good_fixed H). Qed.
+Check C17_iter : forall d, exact_case d ->
   ll_iter_files fixed d = files_paragraphs d /\ ll_iter_licenses fixed d = licence_paragraphs d.
 Print Assumptions C17_iter.
 
-(* the lossy reader's find_files, directly on its own paragraphs *)
+(* finding field-name-case: "files: *" is a Files paragraph no reader sees (find_files = None
+   although it matches; the paragraph is listed by iter_licenses instead), and "format: x" is
+   refused as not machine readable although it starts with a Format field *)
+Theorem C17_field_name_case_witness :
+  Known_field_name_case Wit.d_case /\
+  ll_find_files fixed Wit.d_case Wit.p_f = Ok None /\
+  ~ is_last_such (fun p => para_matches p Wit.p_f) (files_paragraphs Wit.d_case) None /\
+  List.length (ll_iter_licenses fixed Wit.d_case) = 1 /\ licence_paragraphs Wit.d_case = [] /\
+  starts_with_format_field Wit.t_case /\ ll_from_str Wit.t_case = Err 2%N /\
+  ly_from_str fixed Wit.t_case = Err 2%N.
+Proof. exact field_name_case_witness. Qed.
+Check C17_field_name_case_witness :
+  Known_field_name_case Wit.d_case /\
+  ll_find_files fixed Wit.d_case Wit.p_f = Ok None /\
+  ~ is_last_such (fun p => para_matches p Wit.p_f) (files_paragraphs Wit.d_case) None /\
+  List.length (ll_iter_licenses fixed Wit.d_case) = 1 /\ licence_paragraphs Wit.d_case = [] /\
+  starts_with_format_field Wit.t_case /\ ll_from_str Wit.t_case = Err 2%N /\
+  ly_from_str fixed Wit.t_case = Err 2%N.
+Print Assumptions C17_field_name_case_witness.
+
+(* on documents outside the class the two lookups coincide for the four names *)
+Theorem C17_exact_case_lookup : forall d p K, exact_case d -> In p d -> In K special_names ->
+  sget p K = pget p K.
+Proof. intros d p K H Hp HK. apply sget_pget; [exact HK|exact (exact_case_in d p H Hp)]. Qed.
+Check C17_exact_case_lookup : forall d p K, exact_case d -> In p d -> In K special_names ->
+  sget p K = pget p K.
+Print Assumptions C17_exact_case_lookup.
+
+(* the lossy reader's find_files, directly on its own paragraphs (any patterns) *)
 Theorem C17_lossy_find_files_last : forall c path,
-  Forall (fun fp => Forall (fun g => valid_escapes g = true) (lf_files fp)) (c_files c) ->
   exists r, ly_find_files fixed c path = Ok r /\
     is_last_such (fun fp => exists g, In g (lf_files fp) /\ glob_matches g path) (c_files c) r.
-Proof. exact ly_find_files_last. Qed.
+Proof. intros c path. exact (ly_find_files_last fixed c path good_fixed (or_introl eq_refl)). Qed.
 Check C17_lossy_find_files_last : forall c path,
-  Forall (fun fp => Forall (fun g => valid_escapes g = true) (lf_files fp)) (c_files c) ->
   exists r, ly_find_files fixed c path = Ok r /\
     is_last_such (fun fp => exists g, In g (lf_files fp) /\ glob_matches g path) (c_files c) r.
 Print Assumptions C17_lossy_find_files_last.
@@ -146,12 +240,13 @@ Print Assumptions C17_lossy_find_files_last.
 Theorem C17_license_name_refuted : ~ lookup_clause no_lp_name /\ ~ agree_clause no_lp_name.
 Proof. split; [exact lookup_clause_no_lp_name_refuted|exact agree_clause_no_lp_name_refuted]. Qed.
 Check C17_license_name_refuted :
-  ~ lookup_clause (mk_variant true true false true) /\ ~ agree_clause (mk_variant true true false true).
+  ~ lookup_clause (mk_variant true true false true true true) /\
+  ~ agree_clause (mk_variant true true false true true true).
 Print Assumptions C17_license_name_refuted.
 
-(* Totality, every variant and every document (valid patterns or not): the lookups answer or
-   panic — never an error value, never out of fuel — find_license_by_name always answers, and
-   the lossy name().unwrap() (Panic 12) is never reached. *)
+(* Totality.  Every variant and every document: the lookups answer or panic — never an error
+   value, never out of fuel — find_license_by_name always answers, and the lossy
+   name().unwrap() (Panic 12) is never reached.  With C17-invalid-glob-escape nothing panics. *)
 Theorem C17_total : forall v d c path n,
   ok_or_panic (ll_find_files v d path) /\ ok_or_panic (ll_find_license_for_file v d path) /\
   (exists a, ll_find_license_by_name v d n = Ok a) /\
@@ -170,17 +265,26 @@ Check C17_total : forall v d c path n,
   ly_find_license_for_file v c path <> Panic 12%N.
 Print Assumptions C17_total.
 
+Theorem C17_never_panics : forall v d c path, v_lenient v = true ->
+  (exists r, ll_find_files v d path = Ok r) /\ (exists a, ll_find_license_for_file v d path = Ok a) /\
+  (exists r, ly_find_files v c path = Ok r) /\ (exists a, ly_find_license_for_file v c path = Ok a).
+Proof. exact lookups_ok_lenient. Qed.
+Check C17_never_panics : forall v d c path, v_lenient v = true ->
+  (exists r, ll_find_files v d path = Ok r) /\ (exists a, ll_find_license_for_file v d path = Ok a) /\
+  (exists r, ly_find_files v c path = Ok r) /\ (exists a, ly_find_license_for_file v c path = Ok a).
+Print Assumptions C17_never_panics.
+
 (* ------------------------------------------------------------------ clause 3: the readers agree *)
 (* Whenever the lossy reader accepts the document, for every path: same outcome of find_files
-   (the same paragraph position, the lossy paragraph being the conversion of the lossless one,
-   or the same panic), the same licence for the file, the same licence by name.  No hypothesis
-   on the patterns. *)
+   (the same paragraph position, the lossy paragraph being the conversion of the lossless one),
+   the same licence for the file, the same licence by name.  No hypothesis on the patterns or
+   on the case of field names (both readers use the same exact lookup). *)
 Theorem C17_readers_agree : forall d c, ly_of_doc fixed d = Ok c ->
   forall path,
     found_rel (files_conv fixed) (ll_find_files fixed d path) (ly_find_files fixed c path) /\
     ll_find_license_for_file fixed d path = ly_find_license_for_file fixed c path /\
     forall n, ll_find_license_by_name fixed d n = Ok (ly_find_license_by_name c n).
-Proof. exact agree_clause_fixed. Qed.
+Proof. exact (agree_clause_good fixed good_fixed). Qed.
 Check C17_readers_agree : forall d c, ly_of_doc fixed d = Ok c ->
   forall path,
     found_rel (files_conv fixed) (ll_find_files fixed d path) (ly_find_files fixed c path) /\
@@ -188,9 +292,19 @@ Check C17_readers_agree : forall d c, ly_of_doc fixed d = Ok c ->
     forall n, ll_find_license_by_name fixed d n = Ok (ly_find_license_by_name c n).
 Print Assumptions C17_readers_agree.
 
+(* the same of the code as committed (the readers also panic together) *)
+Theorem C17_readers_agree_committed : agree_clause committed.
+Proof. exact (agree_clause_good committed good_committed). Qed.
+Check C17_readers_agree_committed : forall d c, ly_of_doc committed d = Ok c ->
+  forall path,
+    found_rel (files_conv committed) (ll_find_files committed d path) (ly_find_files committed c path) /\
+    ll_find_license_for_file committed d path = ly_find_license_for_file committed c path /\
+    forall n, ll_find_license_by_name committed d n = Ok (ly_find_license_by_name c n).
+Print Assumptions C17_readers_agree_committed.
+
 (* hence the lossy reader itself obeys "last match wins" and the licence rule, stated against
    the document it was read from *)
-Theorem C17_lossy_lookup : forall d c path, ly_of_doc fixed d = Ok c -> doc_valid d ->
+Theorem C17_lossy_lookup : forall d c path, exact_case d -> ly_of_doc fixed d = Ok c ->
   exists r ans,
     is_last_such (fun p => para_matches p path) (files_paragraphs d) r /\
     licence_answer d r ans /\
@@ -198,8 +312,8 @@ Theorem C17_lossy_lookup : forall d c path, ly_of_doc fixed d = Ok c -> doc_vali
     (forall j fp, ly_find_files fixed c path = Ok (Some (j, fp)) ->
                   exists p, r = Some (j, p) /\ files_conv fixed p fp) /\
     ly_find_license_for_file fixed c path = Ok ans.
-Proof. exact ly_lookup. Qed.
-Check C17_lossy_lookup : forall d c path, ly_of_doc fixed d = Ok c -> doc_valid d ->
+Proof. intros d c path H E. exact (ly_lookup fixed d c path good_fixed H (or_introl eq_refl) E). Qed.
+Check C17_lossy_lookup : forall d c path, exact_case d -> ly_of_doc fixed d = Ok c ->
   exists r ans,
     is_last_such (fun p => para_matches p path) (files_paragraphs d) r /\
     licence_answer d r ans /\
@@ -210,26 +324,29 @@ Check C17_lossy_lookup : forall d c path, ly_of_doc fixed d = Ok c -> doc_valid 
 Print Assumptions C17_lossy_lookup.
 
 (* ... and the lossy reader accepts every well-formed document (any variant) *)
-Theorem C17_wellformed_accepted : forall v d, wf_doc d -> exists c, ly_of_doc v d = Ok c.
-Proof. exact wf_doc_accepted. Qed.
-Check C17_wellformed_accepted : forall v d, wf_doc d -> exists c, ly_of_doc v d = Ok c.
+Theorem C17_wellformed_accepted : forall v d, exact_case d -> wf_doc d -> exists c, ly_of_doc v d = Ok c.
+Proof. exact accept_clause_any. Qed.
+Check C17_wellformed_accepted : forall v d, exact_case d -> wf_doc d -> exists c, ly_of_doc v d = Ok c.
 Print Assumptions C17_wellformed_accepted.
 
 (* DESIGN §5 row 23: 'Files: a/* b/*' is one pattern to the shipped lossy reader *)
 Theorem C17_lossy_patterns_refuted : ~ agree_clause no_lossy_ws /\ ~ agree_clause shipped.
 Proof. split; [exact agree_clause_no_lossy_ws_refuted|exact agree_clause_shipped_refuted]. Qed.
-Check C17_lossy_patterns_refuted : ~ agree_clause (mk_variant true false true true) /\ ~ agree_clause shipped.
+Check C17_lossy_patterns_refuted :
+  ~ agree_clause (mk_variant true false true true true true) /\ ~ agree_clause shipped.
 Print Assumptions C17_lossy_patterns_refuted.
 
 (* the shipped lossless reader answers from the header's License field *)
 Theorem C17_header_license_refuted : ~ agree_clause no_skip_header.
 Proof. exact agree_clause_no_skip_header_refuted. Qed.
-Check C17_header_license_refuted : ~ agree_clause (mk_variant true true true false).
+Check C17_header_license_refuted : ~ agree_clause (mk_variant true true true false true true).
 Print Assumptions C17_header_license_refuted.
 
 (* ------------------------------------------------------------------ clause 4: the text entry points *)
-(* NotMachineReadable (Err 2) exactly when the text does not start with "Format:" — all three
-   entry points, every variant *)
+(* NotMachineReadable (Err 2) exactly when the text does not start with the seven characters
+   "Format:" — all three entry points, every variant.  (The gate is the code's reading of
+   "starts with a Format field": exact case, no blank before the colon; another case of the
+   name is the finding field-name-case, witness above.) *)
 Theorem C17_format_gate : forall v s,
   (ll_from_str s = Err 2%N <-> format_gate s = false) /\
   (ll_from_str_relaxed s = Err 2%N <-> format_gate s = false) /\
@@ -272,33 +389,48 @@ Proof. exact get_items. Qed.
 Check C17_get_items : forall (p : tree) key, Deb822Parse.get p key = pget (items p) key.
 Print Assumptions C17_get_items.
 
-(* ------------------------------------------------------------------ recorded findings (not repaired) *)
-(* non-utf8-path: the path quantifier above is over sequences of Unicode scalar values.  A Unix
-   path that is not valid UTF-8 makes Path::to_str() None, and both matches() unwrap it. *)
+(* ------------------------------------------------------------------ paths that are not valid UTF-8 *)
+(* The path quantifier above is over sequences of Unicode scalar values.  With
+   C17-non-utf8-path a path that is not valid UTF-8 is read through Path::to_string_lossy():
+   the lookups see the str in which every maximal invalid sequence reads as U+FFFD, and the
+   theorems above apply to that str (so "*" matches such a path, "?" one invalid sequence).
+   Without the patch both matches() unwrap Path::to_str(): the modelled panic, recorded as
+   finding non-utf8-path until the patch is committed. *)
 Theorem C17_nonutf8_path_witness :
-  (exists c, ly_of_doc fixed Wit.d_ws = Ok c /\ ly_find_files_nonutf8 c = Panic 13%N /\
-             ly_find_license_for_file_nonutf8 c = Panic 13%N) /\
-  ll_find_files_nonutf8 fixed Wit.d_ws = Panic 13%N /\
-  ll_find_license_for_file_nonutf8 fixed Wit.d_ws = Panic 13%N /\
-  ll_find_files_nonutf8 fixed [Wit.header; [(k_Files, []); (k_License, [88%N])]] = Ok None.
+  (exists c, ly_of_doc committed Wit.d_ws = Ok c /\ ly_find_files_nonutf8 committed c = Panic 13%N /\
+             ly_find_license_for_file_nonutf8 committed c = Panic 13%N) /\
+  ll_find_files_nonutf8 committed Wit.d_ws = Panic 13%N /\
+  ll_find_license_for_file_nonutf8 committed Wit.d_ws = Panic 13%N /\
+  ll_find_files_nonutf8 no_lossy_path Wit.d_ws = Panic 13%N /\
+  ll_find_files_nonutf8 committed [Wit.header; [(k_Files, []); (k_License, [88%N])]] = Ok None.
 Proof. exact nonutf8_path_witness. Qed.
 Check C17_nonutf8_path_witness :
-  (exists c, ly_of_doc fixed Wit.d_ws = Ok c /\ ly_find_files_nonutf8 c = Panic 13%N /\
-             ly_find_license_for_file_nonutf8 c = Panic 13%N) /\
-  ll_find_files_nonutf8 fixed Wit.d_ws = Panic 13%N /\
-  ll_find_license_for_file_nonutf8 fixed Wit.d_ws = Panic 13%N /\
-  ll_find_files_nonutf8 fixed [Wit.header; [(k_Files, []); (k_License, [88%N])]] = Ok None.
+  (exists c, ly_of_doc committed Wit.d_ws = Ok c /\ ly_find_files_nonutf8 committed c = Panic 13%N /\
+             ly_find_license_for_file_nonutf8 committed c = Panic 13%N) /\
+  ll_find_files_nonutf8 committed Wit.d_ws = Panic 13%N /\
+  ll_find_license_for_file_nonutf8 committed Wit.d_ws = Panic 13%N /\
+  ll_find_files_nonutf8 no_lossy_path Wit.d_ws = Panic 13%N /\
+  ll_find_files_nonutf8 committed [Wit.header; [(k_Files, []); (k_License, [88%N])]] = Ok None.
 Print Assumptions C17_nonutf8_path_witness.
 
-(* glob-regex-size-limit: the model takes Regex::new(..).unwrap() to succeed.  The regex crate
-   refuses patterns whose compiled form exceeds 10 MiB; measured on the real code, the first
-   failures are at 9855 wildcards and at 327675 literal characters.  The class recorded in
-   known_findings.jsonl is the decidable over-approximation below; every theorem above holds
-   for the model also inside the class (the model has no such limit), so what is *not* covered
-   by the theorems about the real code is exactly this predicate. *)
+(* ------------------------------------------------------------------ recorded finding: regex size *)
+(* glob-regex-size-limit: the model takes Regex::new(..) to succeed.  The regex crate refuses
+   a pattern whose compiled program exceeds 10 MiB (then glob_to_regex panics; with
+   C17-invalid-glob-escape the pattern matches nothing instead).  The compiled size is NOT a
+   function of the number of characters.  Measured on the real code: a literal costs 32 bytes
+   per UTF-8 *byte* (first failure at 327 675 bytes whatever the characters: 327 675 x 'a',
+   163 838 x U+00E9, 109 225 x U+4E2D, 81 919 x U+1F600), a wildcard between 964 and 1 064
+   bytes (first failures at 9 855 .. 10 878 wildcards, depending on the flags and the
+   wildcard), and the costs add up (100 000 x 'a' + 7 257 x '*', 200 000 x 'a' + 4 239 x '?',
+   300 000 x 'a' + 883 x '*' fail).  The recorded class is the decidable over-approximation
+   below (wildcard weight rounded up to 1 100, bound rounded down to 10^7).  It is NOT an exact
+   description of where the implementation fails: it contains that region as far as the linear
+   cost model above holds (which is a measurement, not a theorem), and also patterns the
+   implementation still handles.  Every theorem above holds for the model also inside the
+   class (the model has no such limit). *)
 Definition Known_glob_regex_size_limit (g : str) : Prop :=
-  (8192 <= N.of_nat (List.length (filter (fun c => (c =? 42) || (c =? 63)) g)) \/
-   262144 <= N.of_nat (List.length g))%N.
+  (10000000 <= 1100 * N.of_nat (List.length (filter (fun c => (c =? 42) || (c =? 63)) g))
+               + 32 * utf8_size g)%N.
 
 (* ------------------------------------------------------------------ non-vacuity *)
 Module Examples.
@@ -321,7 +453,9 @@ Module Examples.
   Example C17_ex_invalid_escape :
     valid_escapes (L "a\x") = false /\ glob_to_regex (L "a\x") = Panic 1%N /\ glob_to_regex (L "a\") = Panic 2%N /\
     (* any() stops at the first match: the bad pattern behind it is never compiled *)
-    any_match true [L "a"; L "\x"] (L "a") = Ok true /\ any_match true [L "a"; L "\x"] (L "b") = Panic 1%N.
+    any_match true false [L "a"; L "\x"] (L "a") = Ok true /\ any_match true false [L "a"; L "\x"] (L "b") = Panic 1%N /\
+    (* with C17-invalid-glob-escape the bad pattern matches nothing and the next one is tried *)
+    any_match true true [L "\x"; L "b"] (L "b") = Ok true /\ any_match true true [L "\x"] (L "x") = Ok false.
   Proof. repeat split; vm_compute; reflexivity. Qed.
 
   (* a well-formed text with overlapping patterns on one and on several lines, an inline
@@ -355,7 +489,7 @@ Comment: p2
 ".
   Example C17_ex_doc :
     exists d c,
-      ll_from_str t1 = Ok d /\ ly_from_str fixed t1 = Ok c /\ wf_doc d /\ doc_valid d /\
+      ll_from_str t1 = Ok d /\ ly_from_str fixed t1 = Ok c /\ exact_case d /\ wf_doc d /\ doc_valid d /\
       List.length (files_paragraphs d) = 3 /\ List.length (licence_paragraphs d) = 2 /\
       (* src/gen/x.c matches paragraphs 0, 1 and 2: the last one wins, in both readers;
          its licence has no text: the first stand-alone GPL-3+ paragraph (name only) answers *)
@@ -374,7 +508,7 @@ Comment: p2
     destruct (ly_from_str fixed t1) as [c| | |] eqn:Ec; try (vm_compute in Ec; discriminate).
     exists d, c. split; [reflexivity|]. split; [reflexivity|].
     vm_compute in Ed. injection Ed as <-. vm_compute in Ec. injection Ec as <-.
-    split; [vm_compute; auto|].
+    split; [reflexivity|]. split; [vm_compute; auto|].
     split.
     { intros p g Hp Hg. vm_compute in Hp.
       destruct Hp as [<-|[<-|[<-|[]]]]; vm_compute in Hg;
